@@ -157,6 +157,14 @@ def judge(hid, line, lifetimes, h, mline, synth_val, project="full"):
             k = len([x for x in recs if x.l == r.l and x.tag != "EXIT"])
             if k < len(lifetimes[r.l]): op = lifetimes[r.l][k]
         if op and op.startswith(("I:", "T:")): named.add(op.split(":")[1])
+        # C01/C03: a page that holds a function never loses its execute permission (other functions of that page, and calls to functions
+        # already faked there, would fault while it lasts)
+        for e in getattr(r, "noexec", []):
+            t = e.split(); a0 = int(t[1], 16); l0 = int(t[2], 16)
+            hit = [n for n, ad in h["addr"].items() if (a0 & ~0xfff) <= ad < ((a0 + max(l0, 1) + 0xfff) & ~0xfff)]
+            if hit:
+                v = dict(case=case, what=f"at L{r.l} {r.tag} the page(s) {a0 & ~0xfff:x}+{l0:x} holding {','.join(sorted(hit))} were given protection {t[3]} (no execute permission): any other function there, or a call to one already faked there, faults while it lasts", event=e)
+                J["c03"].append(v); J["c01"].append(v)
         # C12 bookkeeping on system calls
         for e in r.ev:
             t = e.split()
@@ -165,6 +173,13 @@ def judge(hid, line, lifetimes, h, mline, synth_val, project="full"):
                 if t[1] not in live: J["c12"].append(dict(case=case, what="munmap of something the injector did not allocate (or twice)", event=e))
                 elif live[t[1]] != t[2]: J["c12"].append(dict(case=case, what="munmap with a length different from the mapping's", event=e, mapped_len=live[t[1]])); live.pop(t[1])
                 else: live.pop(t[1])
+        # C02 (latest installation in effect AT ALL TIMES): an installation, first or repeated, only writes branches and stubs; code that is
+        # neither, flushed during an installation, means the function was taken back to its original code in between
+        if r.tag != "EXIT" and op and op.startswith(("I:", "T:")) and r.res.startswith("installed"):
+            for e in r.ev:
+                t = e.split()
+                if t[0] == "F" and len(t) > 3 and not t[3].startswith(("e9", "48b8", "48c7c0")):
+                    J["c02"].append(dict(case=case, what=f"during the installation {op} (L{r.l} {r.tag}) the library wrote and flushed code that is not a branch or stub at {t[1]}: {t[3]}: the function was un-faked in between", event=e)); break
         # C11/C12: exactly one mapping is kept per completed installation; it lies within reach of the function
         if r.tag != "EXIT" and op and op.startswith(("I:", "T:")) and r.res.startswith("installed"):
             alive = sum(1 for x in recs if x.l == r.l and x.tag != "EXIT" and recs.index(x) <= recs.index(r)
